@@ -120,6 +120,18 @@ def stmt_text(mod, st):
         return f"{st[1]}.${st[2]}: v{st[3]}{' !default' if st[4] else ''};"
     if k == "P":
         return probe_text(mod, st)
+    if k == "N":
+        _, pid, ctx, n, v = st
+        d = f"${n}: v{v} !default;"
+        if ctx == 0:
+            return f"p{pid} {{ {d} r: ${n}; }}"
+        if ctx == 1:
+            return f"@if true {{ {d} p{pid} {{ r: ${n}; }} }}"
+        if ctx == 2:
+            return f"@each $i in 1 {{ {d} p{pid} {{ r: ${n}; }} }}"
+        if ctx == 3:
+            return f"@mixin -nm{pid}() {{ {d} r: ${n}; }} p{pid} {{ @include -nm{pid}; }}"
+        return f"@function -nf{pid}() {{ {d} @return ${n}; }} p{pid} {{ r: -nf{pid}(); }}"
     if k == "K":
         fn = "module-variables" if st[2] == "v" else "module-functions"
         return f'p{st[1]} {{ r: meta.inspect(meta.{fn}("{st[3]}")); }}'
@@ -177,6 +189,8 @@ def enc_stmt(st):
         return ["P", str(st[1]), "1" if st[2] else "0", st[3], st[4] or "-", st[5]]
     if k == "K":
         return ["K", str(st[1]), st[2], st[3]]
+    if k == "N":
+        return ["N", str(st[1]), str(st[2]), st[3], str(st[4])]
     raise ValueError(k)
 
 
@@ -468,6 +482,10 @@ class Gen:
                     if r.random() < 0.08:
                         cfg.append(("zz", self.v()))
                     feat.add("use-with")
+                elif ti.get("nested_only") and r.random() < 0.35 and not was_target:
+                    cfg = [(r.choice(ti["nested_only"]), self.v())]
+                    feat.add("use-with")
+                    feat.add("with-names-nested-only")
                 head.append(("U", self.spelling(t, ti["partial"], importer=name), ns, cfg))
                 self.targets.add(t)
                 if key is not None:
@@ -484,6 +502,22 @@ class Gen:
             body.append(("F", n, getter))
         for n in own_m:
             body.append(("X", n))
+        # `!default` declarations that are NOT at the root: never configurable, no module member
+        nested_only = []
+        if r.random() < 0.3:
+            for _ in range(r.choice([1, 1, 2])):
+                if own_v and r.random() < 0.4:
+                    n = r.choice([x for x in own_v])
+                else:
+                    n = r.choice([x for x in VARS if x not in own_v] or VARS)
+                    if n not in own_v:
+                        nested_only.append(n)
+                st_n = ("N", self.p(), r.randrange(5), n, self.v())
+                if r.random() < 0.3:
+                    body.insert(0, st_n)         # before the top-level declarations
+                else:
+                    body.append(st_n)
+            feat.add("nested-default")
         body.append(("D",))
         if r.random() < 0.9:
             body.append(("C",))
@@ -532,7 +566,8 @@ class Gen:
             if not is_private(n):
                 vis["m"].add(n)
         partial = r.random() < 0.3 and not is_entry
-        info[name] = {"vis": vis, "partial": partial, "nss": nss, "stars": stars, "own_v": own_v}
+        info[name] = {"vis": vis, "partial": partial, "nss": nss, "stars": stars, "own_v": own_v,
+                      "nested_only": sorted(set(nested_only))}
         return {"name": name, "partial": partial, "body": head + body}
 
     def project(self):
@@ -761,7 +796,7 @@ class Gen:
         out = []
         if not model_ok:
             return out
-        self.pid = max([st[1] for m in proj["mods"] for st in m["body"] if st[0] in ("P", "K")] + [0])
+        self.pid = max([st[1] for m in proj["mods"] for st in m["body"] if st[0] in ("P", "K", "N")] + [0])
         spots = []
         for i, m in enumerate(proj["mods"]):
             for st in m["body"]:
@@ -891,6 +926,14 @@ def corpus():
         M("main", U("mid"), U("a"), ("A", "mid", "y", 60, False), ("P", 1, True, "v", "a", "y"), ("A", "mid", "y", 61, False),
           ("P", 2, True, "v", "a", "y"), ("P", 3, True, "v", "mid", "y"), ("A", "a", "y", 62, False), ("P", 4, True, "v", "mid", "y"),
           ("P", 5, True, "f", "mid", "gx"), ("K", 6, "v", "mid")))
+    # only top-level !default declarations are configurable (seed C12-r2m2)
+    add("with-nested-default-only", [], M("t", ("N", 1, 0, "x", 2), ("N", 2, 3, "y", 3), ("N", 3, 1, "z", 4), ("D",), ("C",)),
+        M("main", U("t", "=", [("x", 9)])))
+    add("with-nested-default-only-mixin", [], M("t", ("N", 1, 0, "x", 2), ("N", 2, 3, "y", 3), ("N", 3, 4, "z", 4), ("D",), ("C",)),
+        M("main", U("t", "=", [("y", 9)])))
+    add("nested-default-is-local", [], M("t", ("V", "w", 1, True), ("N", 1, 0, "x", 2), ("N", 2, 2, "w", 3), ("N", 3, 4, "z", 4), ("D",), ("C",)),
+        M("main", U("t", "=", [("w", 9)]), ("P", 4, True, "v", "t", "x"), ("P", 5, True, "v", "t", "w"), ("P", 6, True, "v", "t", "z"),
+          ("K", 7, "v", "t"), ("K", 8, "f", "t")))
     # spellings of one partial
     add("spellings", [], M("a", ("V", "x", 1, False), ("D",), ("C",), partial=True),
         M("main", ("U", ("a", False, False, False), "=", []), ("U", ("a", True, False, False), "n1", []), ("U", ("a", False, True, True), "n2", []),
